@@ -11,6 +11,7 @@ import (
 	"encoding/json"
 	"fmt"
 	"io"
+	"math"
 	"os"
 	"reflect"
 	"regexp"
@@ -128,7 +129,7 @@ func mutants(d any, tier string) []mutant {
 	for _, pos := range ukit.Positions(d) {
 		if pos.IsKey {
 			// rename the key / duplicate semantics are covered below; here: key replaced by odd keys
-			for _, k := range []any{"renamed_key", int64(1), "", true, int64(-1), int64(0)} {
+			for _, k := range []any{"renamed_key", int64(1), "", true, int64(-1), int64(0), 1.5, math.NaN()} {
 				if m := pos.Replace(k); m != nil {
 					out = append(out, mutant{m, fmt.Sprintf("key at %s -> %s", pos.Path, ukit.Show(k))})
 				}
@@ -739,7 +740,7 @@ func main() {
 			runRange(r.Tier, batch{r.BaseI, r.Kind, 0, 1 << 30}, &res, r.Index)
 			return res.Findings
 		},
-		Rule: "base descriptions: self-descriptions (CBOR-normalised) of ~18 scopes (references under properties / lists / maps / one-of, recursive and mutually recursive objects, nested scope with colliding ids, struct-mapped objects, all one-of flavours, an object with units, patterns, enums with display names, defaults and every presence rule) (thorough: plus the depth-2 universe) and one whole plugin schema; every single mutation at every node: value retyped to each of 12 alien values, key replaced (by a foreign name, 1, the empty string, true, -1, 0), entry deleted, entry duplicated, id / root / namespace / discriminator re-pointed, inlining flag flipped, default replaced by unparsable JSON, pattern replaced by '(', type_id replaced; thorough: every pair of targeted mutations; plus a grammar-free family of ~3000 trees of depth <= 2 over the meta-schema's key vocabulary; entry points UnserializeScope, UnserializeSchema and Client.ReadSchema (real hello bytes); every schema that is returned is exercised: first use of every unit definition in it (parsing a count with each unit name, formatting), SelfSerialize, ValidateReferences, and the four operations on valid values of the base, the same with hostile values one level down, and hostile values at top level; load history: every description rejected in a batch of 400 is loaded again twice in the same process, each time after a garbage collection, and must be rejected again (whatever is returned is exercised); non-trivial = mutants that were accepted (and therefore exercised)",
+		Rule: "base descriptions: self-descriptions (CBOR-normalised) of ~18 scopes (references under properties / lists / maps / one-of, recursive and mutually recursive objects, nested scope with colliding ids, struct-mapped objects, all one-of flavours, an object with units, patterns, enums with display names, defaults and every presence rule) (thorough: plus the depth-2 universe) and one whole plugin schema; every single mutation at every node: value retyped to each of 12 alien values, key replaced (by a foreign name, 1, the empty string, true, -1, 0, 1.5, NaN), entry deleted, entry duplicated, id / root / namespace / discriminator re-pointed, inlining flag flipped, default replaced by unparsable JSON, pattern replaced by '(', type_id replaced; thorough: every pair of targeted mutations; plus a grammar-free family of ~3000 trees of depth <= 2 over the meta-schema's key vocabulary; entry points UnserializeScope, UnserializeSchema and Client.ReadSchema (real hello bytes); every schema that is returned is exercised: first use of every unit definition in it (parsing a count with each unit name, formatting), SelfSerialize, ValidateReferences, and the four operations on valid values of the base, the same with hostile values one level down, and hostile values at top level; load history: every description rejected in a batch of 400 is loaded again twice in the same process, each time after a garbage collection, and must be rejected again (whatever is returned is exercised); non-trivial = mutants that were accepted (and therefore exercised)",
 		Assumptions: []string{
 			"quick tier: single mutations; thorough tier: also every pair of targeted mutations (delete, re-point, flip, unparsable default, bad pattern, type_id), the second applied to the already mutated description; pairs involving retyped values or duplicated entries are not enumerated",
 			"a panic at load time or on first use is a violation; errors are the expected outcome",
